@@ -32,7 +32,7 @@ class DirHandler(BaseHandler):
         self.files = []
         dirfiles = self.vfs.listdir(self.getselector())
         ignorepatt = self.config.get("handlers.dir.DirHandler", "ignorepatt")
-        for file in dirfiles:
+        for file in sorted(dirfiles):
             if self.prep_initfiles_canaddfile(
                 ignorepatt, self.selectorbase + "/" + file, file
             ):
